@@ -130,7 +130,8 @@ def run(ck: common.Check):
         return
     workers = int(os.environ.get("C02_WORKERS", "10"))
     remaining = budget - (time.time() - t_start) - (25 if not ck.thorough else 90)
-    deadline = time.time() + max(remaining, 40)
+    # when a proof or a correspondence stream is broken the search is what produces the failing input: give it time
+    deadline = time.time() + max(remaining, 150 if ck.broken else 45)
     n_inputs = n(3, 5)
     jobs = []
     uid = 0
